@@ -57,8 +57,8 @@ def cliExitTable : List (String × String × String) := [
 /-- package-level variables of the hand-written packages: (package, name, kind) -/
 def packageStateTable : List (String × String × String) := [
   (".", "ParseErrorsToString", "alias"),
-  ("internal/analysis", "AllowedTypes", "slice"),
-  ("internal/analysis", "Builtins", "map"),
+  ("internal/analysis", "AllowedTypes", "table"),
+  ("internal/analysis", "Builtins", "table"),
   ("internal/cmd", "checkCmd", "pointer"),
   ("internal/cmd", "lspCmd", "pointer"),
   ("internal/cmd", "overdraftFeatureFlag", "scalar"),
